@@ -179,6 +179,22 @@ def regression_scenarios():
         ai_edit(steps, v2, "replace")
         steps.append({"op": "commit", "msg": "staged only", "add": "none"})
 
+    def untracked_left_out_twice(w, base, steps):
+        # an agent creates a NEW file that stays untracked over two commits (the second round has no agent: its working
+        # log holds no AI checkpoint, the file lives in INITIAL only), then everything is committed — the pending lines
+        # must arrive in that last commit's note (independently written regression C04-seed1: post-commit stopped asking
+        # about INITIAL files without a checkpoint entry)
+        newf = [w.fresh("created by the agent one", "s1"), w.fresh("created by the agent two", "s1")]
+        steps.append({"op": "human_checkpoint", "paths": ["new1.txt"]})
+        steps.append({"op": "edit", "who": "s1", "path": "new1.txt", "kind": "insert", "lines": [list(l) for l in newf]})
+        cur = base + [w.fresh("agent line in f1", "s1")]
+        ai_edit(steps, cur, "append")
+        steps.append({"op": "commit", "msg": "round 0: f1 only", "paths": ["f1.txt"], "add": "paths"})
+        cur2 = cur + [w.fresh("person line in f1", None)]
+        steps.append({"op": "edit", "who": "human", "path": "f1.txt", "kind": "append", "lines": [list(l) for l in cur2]})
+        steps.append({"op": "commit", "msg": "round 1: f1 only, no agent", "paths": ["f1.txt"], "add": "paths"})
+
+    mk("untracked-ai-file-left-out-of-two-commits", untracked_left_out_twice)
     mk("unstaged-deletion-above-staged-ai-line", o2_delete)
     mk("unstaged-growing-replacement-above-staged-ai-line", o2_grow)
     mk("staged-ai-line-modified-again-by-the-agent", modified_again)
